@@ -503,6 +503,7 @@ pub fn run(ctx: &mut Ctx) {
     ctx.run_suite(&SegSuite);
     ctx.run_suite(&super::c02bp::BackPressureSuite);
     ctx.run_suite(&EofInHeadSuite);
+    ctx.run_suite(&super::c19sess::H1DownloadAcrossShutdownSuite);
     unbounded_head(ctx);
     ctx.assume("heads of 1000-1299 bytes are not generated: their acceptance legitimately depends on read sizes");
     ctx.assume("the codec is exercised inside a real tunnel session (Tunnel + HttpDownstream + scripted forwarder); its observable request is the forwarder's view (destination, user agent) for CONNECT and the origin's view for plain HTTP");
@@ -514,6 +515,7 @@ pub fn replay(ctx: &mut Ctx, suite: &str, case: &Value) -> bool {
         "segmentation" => ctx.replay_suite(&SegSuite, case),
         "bidirectional-back-pressure" => ctx.replay_suite(&super::c02bp::BackPressureSuite, case),
         "end-of-stream-inside-head" => ctx.replay_suite(&EofInHeadSuite, case),
+        "h1-download-across-shutdown" => ctx.replay_suite(&super::c19sess::H1DownloadAcrossShutdownSuite, case),
         _ => false,
     }
 }
